@@ -85,6 +85,11 @@ namespace awkward {
 
       while (dst.get() == nullptr  ||  dst.get()->length() < length) {
         ContentPtr piece(nullptr);
+        if (partitionid >= numpartitions()) {
+          // every source partition is used up: only empty destinations remain
+          partitionid = numpartitions() - 1;
+          index = partitions_[(size_t)partitionid].get()->length();
+        }
         ContentPtr src = partitions_[(size_t)partitionid];
         int64_t available = src.get()->length() - index;
         int64_t desired = (dst.get() == nullptr ? length
